@@ -15,16 +15,37 @@ abbrev Bytes := List UInt8
 abbrev Err := Int
 abbrev Once := Bool
 abbrev FuncVal := Int
+/-- a value of type `interface{}` that the code only passes on: its identity -/
+abbrev Any := Int
+
+/-- an argument of a call of the environment, as the environment sees it -/
+inductive Arg
+  | int (i : Int) | bytes (b : Bytes) | str (s : String)
+  deriving DecidableEq, Repr, Inhabited
+
+def Arg.toInt : Arg → Int
+  | .int i => i
+  | _ => 0
+
+@[simp] theorem Arg.toInt_int (i : Int) : (Arg.int i).toInt = i := rfl
+
+def Arg.toBytes : Arg → Bytes
+  | .bytes b => b
+  | _ => []
+
+@[simp] theorem Arg.toBytes_bytes (b : Bytes) : (Arg.bytes b).toBytes = b := rfl
 
 structure Env where
-  trace   : List (String × List Int)
+  trace   : List (String × List Arg)
   answers : Nat → String → Int × Int
   ifaces  : List String
 
-def Env.record (e : Env) (c : String × List Int) : Env := { e with trace := e.trace ++ [c] }
+instance : Inhabited Env := ⟨{ trace := [], answers := fun _ _ => (0, 0), ifaces := [] }⟩
+
+def Env.record (e : Env) (c : String × List Arg) : Env := { e with trace := e.trace ++ [c] }
 
 /-- a method call on the environment object: recorded, answered by the environment -/
-def Env.call (e : Env) (m : String) (args : List Int) : (Int × Int) × Env :=
+def Env.call (e : Env) (m : String) (args : List Arg) : (Int × Int) × Env :=
   (e.answers e.trace.length m, e.record (m, args))
 
 def Env.implements (e : Env) (i : String) : Bool := e.ifaces.contains i
